@@ -212,7 +212,10 @@ func (e *engine) checkRead(op *opRec, idx int) {
 			default:
 				r.FailSig("read-above-hw", path, detail, facts)
 			}
-			return
+			if r.Failed() {
+				return
+			}
+			continue // deferred: the other rows of this result are still judged
 		}
 		if m.seq <= floor {
 			detail := fmt.Sprintf("op%d %s returned seq %d at or below the logical retention boundary %d known at invocation", op.id, op.desc, m.seq, floor)
@@ -221,7 +224,10 @@ func (e *engine) checkRead(op *opRec, idx int) {
 			} else {
 				r.FailSig("read-below-retention", path, detail, map[string]any{"seq": m.seq, "boundary": floor})
 			}
-			return
+			if r.Failed() {
+				return
+			}
+			continue
 		}
 		if e.barrierIDs[m.id] {
 			if op.synced || !m.syncOnce {
@@ -239,7 +245,10 @@ func (e *engine) checkRead(op *opRec, idx int) {
 				default:
 					r.FailSig("barrier-as-message", path, detail, nil)
 				}
-				return
+				if r.Failed() {
+					return
+				}
+				continue
 			}
 			r.Probe("read.raw_saw_barrier")
 		}
@@ -398,19 +407,41 @@ func (e *engine) pageAnchorMiss(op *opRec, idx int, pg syncPage, latest bool) (u
 // defer_ records a management-path violation; it is raised at the end of the
 // run unless a client-path violation ended the run first, so that neither
 // surface can mask the other inside one run.
+//
+// Every distinct (class, sig) is kept (first occurrence), client path before
+// management path. At the end of the run each one goes through
+// FailSigContinue: one that is an open known finding is counted and the next is
+// looked at, so a known read finding early in a run hides neither a different
+// deferred finding of the same run nor anything the run does afterwards.
 func (e *engine) defer_(mgmt bool, class, sig, detail string, facts map[string]any) {
 	if mgmt {
 		e.r.Logf("  MANAGEMENT-PATH %s: %s", class, detail)
 		e.r.Probe("deferred." + class)
-		if e.deferredMgmt == nil {
-			e.deferredMgmt = &pendingViolation{class, sig, detail, facts}
-		}
-		return
+	} else {
+		e.r.Logf("  DEFERRED %s/%s: %s", class, sig, detail)
+		e.r.Probe("deferred." + class + "/" + sig)
 	}
-	e.r.Logf("  DEFERRED %s/%s: %s", class, sig, detail)
-	e.r.Probe("deferred." + class + "/" + sig)
-	if e.deferred == nil {
-		e.deferred = &pendingViolation{class, sig, detail, facts}
+	list := &e.deferred
+	if mgmt {
+		list = &e.deferredMgmt
+	}
+	for _, d := range *list {
+		if d.class == class && d.sig == sig {
+			return
+		}
+	}
+	*list = append(*list, &pendingViolation{class, sig, detail, facts})
+}
+
+// raiseDeferred reports the deferred read findings of a finished run.
+func (e *engine) raiseDeferred() {
+	if len(e.deferred)+len(e.deferredMgmt) > 1 {
+		e.r.Probe("deferred.several_distinct_in_one_run")
+	}
+	for _, d := range append(append([]*pendingViolation(nil), e.deferred...), e.deferredMgmt...) {
+		if e.r.FailSigContinue(d.class, d.sig, d.detail, d.facts) {
+			return
+		}
 	}
 }
 
